@@ -1601,9 +1601,9 @@ def scripts_c02(tier, rng):
 PROPS.update({
     "C04": dict(modules=["C04", "C04Sys"], theorems=['c04_positive_callback_means_durable', 'c04_wf_invariant', 'c04_covered_step', 'c04_dying_step', 'c04_covered_rotate', 'c04_covered_flush', 'c04_ack_only_from_syncNew', 'c04_ack_means_synced', 'c04_negative_after_failed_sync', 'c04_step_cbs', 'c04_cbs_in_request_order', 'c04_cb_at_most_once', 'c04_exactly_once_no_fault_measure', 'c04_exactly_once_no_fault', 'c04_wf_reachable', 'c04_covered_sys'], gen=scripts_c04, project=proj_events, oracle=oracle_c04,
                 explanation="flush acknowledgement soundness", assumptions=OS_ASSUMPTIONS),
-    "C08": dict(modules=["C08", "C08Sys"], theorems=['c08_abut_spec', 'c08_remaining_files_gap_free_suffix', 'c08_unlinks_oldest_first', 'c08_index_entries_in_linked_chunks', 'c08_unlink_only_after_purge_durable', 'c08_no_failed_sync_clean', 'c08_flushed_idle_gone'] + ['c08_unlink_only_after_good_sync', 'c08_removal_starts_only_after_good_sync', 'c08_lastSyncFailed', 'c08_unlink_in_list_order', 'c08_postponed_in_request_order', 'c08_popObsolete_prefix'], gen=scripts_c08, project=proj_c08, oracle=oracle_c08,
+    "C08": dict(modules=['C08', 'C08Sys'], theorems=['c08_unlink_only_after_good_sync', 'c08_removal_starts_only_after_good_sync', 'c08_lastSyncFailed', 'c08_unlink_in_list_order', 'c08_postponed_in_request_order', 'c08_popObsolete_prefix', 'c08_abut_spec', 'c08_remaining_files_gap_free_suffix', 'c08_unlinks_oldest_first', 'c08_index_entries_in_linked_chunks', 'c08_unlink_only_after_purge_durable', 'c08_no_failed_sync_clean', 'c08_postponed_only_after_failed_sync', 'c08_flushed_idle_gone_always', 'c08_flushed_idle_gone'], gen=scripts_c08, project=proj_c08, oracle=oracle_c08,
                 explanation="chunk deletion", assumptions=OS_ASSUMPTIONS),
-    "C14": dict(modules=["C14", "C14Busy"], theorems=['c14_busy_drop_eq_idle_drop', 'c14_busy_drop_events', 'c14_busy_senderAlive', 'c14_busy_nothing_postponed', 'c14_busy_restart_step', 'c14_busy_drop_then_open_idle', 'c14_busy_drop_then_open', 'c14_after_busy_drop_nothing_changes', 'c14_busy_refinement_continues', 'c14_busy_history_after_restart', 'c14_busy_postponed_needed'] + ['c14_worker_terminates_measure', 'c14_fuel_bound', 'c14_fuel_sufficient', 'c14_todoOK_reachable', 'c14_todoOK_invariant', 'c14_worker_terminates', 'c14_worker_terminates_any', 'c14_drop_state', 'c14_after_drop_nothing_moves', 'c14_drop_quiesces', 'c14_drop_none', 'c14_drop_quiesces_reachable', 'c14_drop_quiesces_system'], gen=scripts_c14, project=proj_events, oracle=oracle_c14,
+    "C14": dict(modules=['C14', 'C14Busy'], theorems=['c14_worker_terminates_measure', 'c14_fuel_bound', 'c14_fuel_sufficient', 'c14_todoOK_reachable', 'c14_todoOK_invariant', 'c14_worker_terminates', 'c14_worker_terminates_any', 'c14_drop_state', 'c14_after_drop_nothing_moves', 'c14_drop_quiesces', 'c14_drop_none', 'c14_drop_quiesces_reachable', 'c14_drop_quiesces_system', 'c14_busy_drop_eq_idle_drop', 'c14_busy_drop_events', 'c14_busy_senderAlive', 'c14_busy_nothing_postponed', 'c14_busy_nothing_postponed_sync', 'c14_busy_postponed_invariant', 'c14_busy_restart_step', 'c14_busy_drop_then_open_idle', 'c14_busy_drop_then_open', 'c14_after_busy_drop_nothing_changes', 'c14_busy_refinement_continues', 'c14_busy_history_after_restart', 'c14_busy_failed_sync_needed'], gen=scripts_c14, project=proj_events, oracle=oracle_c14,
                 explanation="drop quiesces", assumptions=OS_ASSUMPTIONS),
     "C07": dict(modules=["C07", "C07Trunc"], theorems=['c07t_appendsFresh_iff', 'c07t_readInv_spec', 'c07t_inv_fresh', 'c07t_inv_call', 'c07t_inv_truncate', 'c07t_inv_flush', 'c07t_inv_worker', 'c07t_inv_workerIdle', 'c07t_inv_drain', 'c07t_read_of_inv', 'c07t_resident_or_on_disk', 'c07t_inv_reachable', 'c07_reads_with_truncate', 'c07t_appendsFresh_of_noTruncate', 'c07_reads_partial_of_with_truncate', 'c07t_worker_steps_invisible', 'c07t_cache_limits_invisible'] + ['c07_refines_noCache', 'c07_refinesNoCache_step', 'c07_readInv_spec', 'c07_resident_or_on_disk', 'c07_boundary_written', 'c07_read_of_inv', 'c07_inv_fresh', 'c07_inv_call', 'c07_inv_flush', 'c07_inv_worker', 'c07_inv_workerIdle', 'c07_inv_drain', 'c07_inv_reachable', 'c07_reads_partial', 'c07_worker_steps_invisible', 'c07_cache_limits_invisible'], gen=scripts_c07, project=proj_c07, oracle=oracle_c07,
                 explanation="reads independent of cache/worker", assumptions=OS_ASSUMPTIONS),
